@@ -412,7 +412,27 @@ func vc01JSONTarget(q dns.Question, cd, do, mnemonic, wireCT bool) string {
 	return PathJSON + "?" + v.Encode()
 }
 
-func vc01FramingCase(t *rapid.T, st *vstat.Stats, f *vc01Fixture, in ref.Input) {
+// vc01Params are the per-case choices that are not part of the input.
+type vc01Params struct {
+	chunk        int
+	prefixDelta  int // 0: correct DoQ length prefix
+	jsonMnemonic bool
+	jsonMethod   string
+}
+
+func vc01DrawParams(t *rapid.T) (p vc01Params) {
+	p.chunk = rapid.SampledFrom([]int{1, 7, 400, 70000}).Draw(t, "quicChunk")
+	if rapid.IntRange(0, 9).Draw(t, "quicBadPrefix") == 0 {
+		p.prefixDelta = rapid.SampledFrom([]int{-1, 1, 2, -12}).Draw(t, "prefixDelta")
+	}
+
+	p.jsonMnemonic = rapid.Bool().Draw(t, "jsonMnemonic")
+	p.jsonMethod = rapid.SampledFrom([]string{http.MethodGet, http.MethodGet, http.MethodPost}).Draw(t, "jsonMethod")
+
+	return p
+}
+
+func vc01FramingCase(t interface{ Fatalf(string, ...any) }, st *vstat.Stats, f *vc01Fixture, in ref.Input, p vc01Params) {
 	wire := in.Wire
 	c := ref.Classify(wire)
 	classes := append(c.Classes(), "gen-"+strings.SplitN(in.Gen, ":", 2)[0])
@@ -461,7 +481,8 @@ func vc01FramingCase(t *rapid.T, st *vstat.Stats, f *vc01Fixture, in ref.Input) 
 				fail("udp", fmt.Errorf("the response does not decode: %w", uerr))
 			}
 
-			if ferr := ref.CheckForeign(c, got); ferr != nil {
+			// The server only ever sees the first 512 octets of the datagram.
+			if ferr := ref.CheckForeign(ref.Classify(wire[:dns.MinMsgSize]), got); ferr != nil {
 				fail("udp", ferr)
 			}
 		}
@@ -480,11 +501,8 @@ func vc01FramingCase(t *rapid.T, st *vstat.Stats, f *vc01Fixture, in ref.Input) 
 		fail("doh-post", fmt.Errorf("content type %q", rec.Header().Get("Content-Type")))
 	}
 
-	chunk := rapid.SampledFrom([]int{1, 7, 400, 70000}).Draw(t, "quicChunk")
-	prefix := len(wire)
-	if rapid.IntRange(0, 9).Draw(t, "quicBadPrefix") == 0 {
-		prefix = max(0, len(wire)+rapid.SampledFrom([]int{-1, 1, 2, -12}).Draw(t, "prefixDelta"))
-	}
+	chunk := p.chunk
+	prefix := max(0, len(wire)+p.prefixDelta)
 
 	if prefix == len(wire) {
 		r, err = f.quic(wire, prefix, chunk)
@@ -542,8 +560,7 @@ func vc01FramingCase(t *rapid.T, st *vstat.Stats, f *vc01Fixture, in ref.Input) 
 		jreq := ref.JSONRequest(q.Name, q.Qtype, q.Qclass, cd, do)
 		jb, _ := jreq.Pack()
 		jc := ref.Classify(jb)
-		mn := rapid.Bool().Draw(t, "jsonMnemonic")
-		method := rapid.SampledFrom([]string{http.MethodGet, http.MethodGet, http.MethodPost}).Draw(t, "jsonMethod")
+		mn, method := p.jsonMnemonic, p.jsonMethod
 		classes = append(classes, "json")
 
 		r, rec = f.http(method, vc01JSONTarget(q, cd, do, mn, false), nil)
@@ -596,6 +613,68 @@ func TestVerifC01Framing(t *testing.T) {
 
 	f := vc01NewFixture()
 	rapid.Check(t, func(t *rapid.T) {
-		vc01FramingCase(t, st, f, ref.DrawInput(t))
+		in := ref.DrawInput(t)
+		vc01FramingCase(t, st, f, in, vc01DrawParams(t))
+	})
+}
+
+// ---------------------------------------------------------------------------
+// (3) native fuzzing of the same oracles (thorough tier)
+
+func FuzzVerifC01Accept(f *testing.F) {
+	st := vstat.New("C01", "inpkg.fuzz",
+		"go native fuzzing (coverage-guided byte mutation, seeded with valid queries of every answer kind, structured unacceptable messages and hostile constants: header-only with maximal counts, compression pointer loops, pointers beyond the end) through serveDNS + recorder and all in-memory transports; same oracle as inpkg.accept / inpkg.framing; non-trivial as there; distinct by wire bytes")
+	st.Finish(f)
+
+	for k := 0; k < int(ref.NKinds); k++ {
+		for _, qt := range []uint16{dns.TypeA, dns.TypeHTTPS, dns.TypeANY} {
+			m := (&dns.Msg{}).SetQuestion(fmt.Sprintf("k%d.Fuzz.test.", k), qt)
+			m.Id = uint16(1000 + k)
+			if k%2 == 0 {
+				m.SetEdns0(1232, true)
+				opt := m.IsEdns0()
+				opt.Option = append(opt.Option, &dns.EDNS0_PADDING{Padding: make([]byte, 5)}, &dns.EDNS0_TCP_KEEPALIVE{Code: dns.EDNS0TCPKEEPALIVE})
+			}
+
+			b, _ := m.Pack()
+			f.Add(b)
+			m.Response = true
+			b, _ = m.Pack()
+			f.Add(b)
+			m.Response, m.Opcode = false, dns.OpcodeUpdate
+			b, _ = m.Pack()
+			f.Add(b)
+			m.Opcode = dns.OpcodeQuery
+			m.Question = append(m.Question, m.Question[0])
+			b, _ = m.Pack()
+			f.Add(b)
+		}
+	}
+
+	f.Add([]byte{0, 1, 0, 0, 0xff, 0xff, 0xff, 0xff, 0xff, 0xff, 0xff, 0xff})                                  // header only, maximal counts
+	f.Add([]byte{0, 2, 1, 0, 0, 1, 0, 0, 0, 0, 0, 0, 0xc0, 12, 0, 1, 0, 1})                                    // pointer to itself
+	f.Add([]byte{0, 3, 1, 0, 0, 1, 0, 0, 0, 0, 0, 0, 0xc0, 14, 0xc0, 12, 0, 1, 0, 1})                          // pointer loop
+	f.Add([]byte{0, 4, 1, 0, 0, 1, 0, 0, 0, 0, 0, 0, 0xc0, 0xff, 0, 1, 0, 1})                                  // pointer beyond the end
+	f.Add([]byte{0, 5, 1, 0, 0, 1, 0, 0, 0, 0, 0, 1, 1, 'a', 0, 0, 1, 0, 1, 0, 0, 41, 0xff, 0xff, 0, 0, 0, 0}) // OPT with missing rdlength
+
+	fix := vc01NewFixture()
+	base := newServerBase(ProtoDNS, vc01Base("verif-c01-fuzz"))
+	f.Fuzz(func(t *testing.T, wire []byte) {
+		if len(wire) > 8192 {
+			t.Skip()
+		}
+
+		c, err := vc01CheckAccept(base, wire)
+		if err != nil {
+			t.Fatalf("input (%s) %s:\n%v", ref.VerdictNames[c.Verdict], ref.Hex(wire), err)
+		}
+
+		h := ref.Hash(string(wire))
+		p := vc01Params{chunk: []int{1, 7, 400, 70000}[h%4], jsonMnemonic: h&16 != 0, jsonMethod: http.MethodGet}
+		if h%11 == 0 {
+			p.prefixDelta = 1
+		}
+
+		vc01FramingCase(t, st, fix, ref.Input{Wire: wire, Gen: "fuzz"}, p)
 	})
 }
